@@ -826,3 +826,360 @@ theorem commit_objs_len_of_safe (classes : List ClassSpec) (fuel cls : Nat) (his
     | _ => simp [hl] at hsafe
 
 end Aoe.Props.CommitFrame
+
+namespace Aoe.Props.CommitFrame
+open Aoe Aoe.Codec Aoe.Lens Aoe.Commit Aoe.Props.Links
+open Aoe.Props.C05 (Diverge frame get_set)
+
+/-! ## the stored count equals the number of stored records (C04) -/
+
+/-- `nm` occurs in `names` for the first time at position `j` -/
+def firstAt : List Nat → Nat → Nat → Bool
+  | [], _, _ => false
+  | x :: _, nm, 0 => x == nm
+  | x :: r, nm, j + 1 => x != nm && firstAt r nm j
+
+theorem zip_get_firstAt (names : List Nat) (vs : List Val) (nm j : Nat) (v : Val)
+    (hf : firstAt names nm j = true) (hv : vs[j]? = some v) : Rec.get? (names.zip vs) nm = some v := by
+  induction names generalizing vs j with
+  | nil => simp [firstAt] at hf
+  | cons x r ih =>
+    cases vs with
+    | nil => simp at hv
+    | cons y ys =>
+      cases j with
+      | zero =>
+        simp only [firstAt, beq_iff_eq] at hf
+        simp only [List.getElem?_cons_zero, Option.some.injEq] at hv
+        subst hf; subst hv
+        simp [Rec.get?]
+      | succ j =>
+        simp only [firstAt, Bool.and_eq_true, bne_iff_ne, ne_eq] at hf
+        simp only [List.getElem?_cons_succ] at hv
+        have := ih ys j hf.2 hv
+        simp only [Rec.get?, List.zip_cons_cons, List.find?] at this ⊢
+        have hx : (x == nm) = false := by simpa using hf.1
+        simp only [hx]
+        exact this
+
+theorem getAt_append_fld (rp : List Step) (j : Nat) (t x : Val) (h : getAt (rp ++ [Step.fld j]) t = some x) :
+    ∃ vs, getAt rp t = some (.strct vs) ∧ vs[j]? = some x := by
+  induction rp generalizing t with
+  | nil =>
+    cases t with
+    | strct vs =>
+      simp only [List.nil_append, getAt] at h
+      cases hj : vs[j]? with
+      | none => simp [hj] at h
+      | some y => simp only [hj, Option.some.injEq] at h; subst h; exact ⟨vs, rfl, hj⟩
+    | _ => simp [getAt] at h
+  | cons a rp ih =>
+    cases a with
+    | fld i =>
+      cases t with
+      | strct vs =>
+        simp only [List.cons_append, getAt] at h ⊢
+        cases hi : vs[i]? with
+        | none => simp [hi] at h
+        | some y => simp only [hi] at h ⊢; exact ih y h
+      | _ => simp [getAt] at h
+    | idx i =>
+      cases t with
+      | list vs =>
+        simp only [List.cons_append, getAt] at h ⊢
+        cases hi : vs[i]? with
+        | none => simp [hi] at h
+        | some y => simp only [hi] at h ⊢; exact ih y h
+      | _ => simp [getAt] at h
+
+/-- a resolved path whose unresolved form ends with a field step ends with that field step -/
+theorem resolve_last_fld (hist : List Nat) (path : List PStep) (p : List Step) (jj : Nat)
+    (hp : resolve hist path = some p) (hl : path.getLast? = some (PStep.fld jj)) :
+    p = dropLastStep p ++ [Step.fld jj] := by
+  have hne : path ≠ [] := by intro e; subst e; simp at hl
+  have hsplit : path = path.dropLast ++ [PStep.fld jj] := by
+    have := (List.dropLast_concat_getLast hne).symm
+    rw [List.getLast?_eq_some_getLast hne] at hl
+    simp only [Option.some.injEq] at hl
+    rw [hl] at this; exact this
+  have hd := resolve_dropLast hist path p hp
+  rw [hsplit, resolve_append, hd] at hp
+  simp only [Option.bind, resolve, Option.map, Option.some.injEq] at hp
+  unfold dropLastStep
+  exact hp.symm
+
+/-- **count = number of records after the push of a counted object list** (single `count := len(list)` refresh) -/
+theorem pushLink_objs_count (rc : Nat → List Nat → Val → Sections → Except Err Sections)
+    (F : Nat → List Nat → Val → List (List Step)) (hist : List Nat)
+    (s s' : Sections) (a : Nat) (path : List PStep) (ccls : Nat) (defaults : List Val) (childNames : List Nat)
+    (guards : List (Nat × Expr)) (names : List Nat) (os : List Val) (p : List Step) (ci nm jj : Nat)
+    (hp : resolve hist path = some p) (hlast : path.getLast? = some (PStep.fld jj)) (hfirst : firstAt names nm jj = true)
+    (hrc : ∀ h o t t', rc ccls h o t = .ok t' → AllPres (ListLen p os.length) (F ccls h o) →
+      ListLen p os.length t.root → ListLen p os.length t'.root)
+    (hch : ∀ oi ∈ os.zipIdx, AllPres (ListLen p os.length) (F ccls (hist ++ [oi.2]) oi.1))
+    (h : pushLink rc hist s ((a, .objs path ccls defaults childNames guards
+            [{ dest := .self ci, expr := .len (.ref (.self nm)) }] names), .list os) = .ok s') :
+    getAt (dropLastStep p ++ [Step.fld ci]) s'.root = some (.int os.length) := by
+  obtain ⟨p', old, dflt, s1, s2, hr, hg, hw, hf, ha⟩ :=
+    pushLink_objs_steps rc hist s s' a path ccls defaults childNames guards _ names os h
+  rw [hp] at hr; cases hr
+  have h1 : ListLen p os.length s1.root := by
+    cases hs : setAt p s.root (.list (resizeList old os.length dflt)) with
+    | none => simp [hs, Option.bind] at hw
+    | some r =>
+      simp only [hs, Option.bind] at hw
+      rw [(withRoot_some s s1 r hw).1]
+      exact ⟨_, get_set p s.root _ r hs, resizeList_length old os.length dflt⟩
+  have h2 : ListLen p os.length s2.root := by
+    refine foldlM_inv (ListLen p os.length) _ (os.zipIdx) ?_ s1 s2 hf h1
+    intro oi hoi t t' ht hQt
+    exact hrc (hist ++ [oi.2]) oi.1 t t' ht (hch oi hoi) hQt
+  obtain ⟨l, hl, hlen⟩ := h2
+  rw [resolve_last_fld hist path p jj hp hlast] at hl
+  obtain ⟨vs, hrec, hvj⟩ := getAt_append_fld _ jj _ _ hl
+  have hlook : (s2.env names (.strct vs)).lookup (.self nm) = .ok (.list l) := by
+    simp only [Env.lookup, Sections.env, zip_get_firstAt names vs nm jj _ hfirst hvj]
+  have := count_equals_length ci nm (dropLastStep p) names s2 s' (.strct vs) l hrec hlook ha
+  rw [this, hlen]
+
+end Aoe.Props.CommitFrame
+
+namespace Aoe.Props.CommitFrame
+open Aoe Aoe.Codec Aoe.Lens Aoe.Commit Aoe.Props.Links
+open Aoe.Props.C05 (Diverge frame get_set)
+
+/-- **after the commit of an object, the count retriever of a counted object list holds the number of objects** (and
+the struct list holds that many records, `commit_objs_len`): established by the push of the link, kept by every link
+pushed afterwards -/
+theorem commit_objs_count (classes : List ClassSpec) (fuel cls : Nat) (hist : List Nat) (vals : List Val) (s s' : Sections)
+    (c : ClassSpec) (hc : classes[cls]? = some c)
+    (h : commitObj classes (fuel + 1) cls hist (.strct vals) s = .ok s')
+    (L1 L2 : List ((Nat × LinkKind) × Val)) (a : Nat) (path : List PStep) (ccls : Nat) (defaults : List Val)
+    (childNames : List Nat) (guards : List (Nat × Expr)) (names : List Nat) (os : List Val) (ci nm jj : Nat)
+    (hsplit : c.links.zip vals = L1 ++ ((a, .objs path ccls defaults childNames guards
+        [{ dest := .self ci, expr := .len (.ref (.self nm)) }] names), .list os) :: L2)
+    (p : List Step) (hp : resolve hist path = some p)
+    (hlast : path.getLast? = some (PStep.fld jj)) (hfirst : firstAt names nm jj = true)
+    (hnest : wellNested classes fuel ccls path hist.length = true)
+    (haway : ∀ lv ∈ L1, linkAway classes fuel hist.length (destPPath path (.self ci)) lv.1.2 = true) :
+    getAt (dropLastStep p ++ [Step.fld ci]) s'.root = some (.int os.length) := by
+  simp only [commitObj, hc, hsplit] at h
+  rw [List.reverse_append, List.reverse_cons, List.append_assoc, List.foldlM_append] at h
+  simp only [bind, Except.bind] at h
+  cases hA : List.foldlM (pushLink (commitObj classes fuel) hist) s L2.reverse with
+  | error e => rw [hA] at h; cases h
+  | ok sA =>
+    rw [hA] at h
+    simp only [List.singleton_append, List.foldlM, bind, Except.bind] at h
+    cases hB : pushLink (commitObj classes fuel) hist sA
+        ((a, .objs path ccls defaults childNames guards [{ dest := .self ci, expr := .len (.ref (.self nm)) }] names), .list os) with
+    | error e => rw [hB] at h; cases h
+    | ok sB =>
+      rw [hB] at h
+      have h1 : getAt (dropLastStep p ++ [Step.fld ci]) sB.root = some (.int os.length) := by
+        refine pushLink_objs_count (commitObj classes fuel) (foot classes fuel) hist sA sB a path ccls defaults childNames
+          guards names os p ci nm jj hp hlast hfirst ?_ ?_ hB
+        · intro hh o t t' ht hpres hq
+          exact commitObj_inv _ classes fuel ccls hh o t t' ht hpres hq
+        · intro oi hoi w hw
+          exact pres_len_of_below p w _ oi.2 (foot_below classes fuel ccls path hist oi.2 oi.1 p hp hnest w hw)
+      have hcp : resolve hist (destPPath path (.self ci)) = some (dropLastStep p ++ [Step.fld ci]) := by
+        have := resolve_dest hist path p (.self ci) hp
+        simpa [Dest.path] using this
+      let Q : Val → Prop := fun t => getAt (dropLastStep p ++ [Step.fld ci]) t = some (.int os.length)
+      refine foldlM_inv Q _ L1.reverse ?_ sB s' h h1
+      intro lv hlv t t' ht hq
+      refine pushLink_inv Q (commitObj classes fuel) (foot classes fuel) ?_ hist t t' lv ht ?_ hq
+      · intro cc hh o u u' hu hpres hQu
+        exact commitObj_inv Q classes fuel cc hh o u u' hu hpres hQu
+      · exact linkAway_pres classes fuel hist _ _ hcp Q (fun w hd => pres_of_diverge _ w _ hd) lv
+          (haway lv (by simpa using hlv))
+
+/-- the decidable side conditions of `commit_objs_count` for link number `j` of class `c` at nesting depth `k` -/
+def countSafe (classes : List ClassSpec) (fuel : Nat) (c : ClassSpec) (k j : Nat) : Bool :=
+  match c.links[j]? with
+  | some (_, .objs path ccls _ _ _ [{ dest := .self ci, expr := .len (.ref (.self nm)) }] names) =>
+    (match path.getLast? with
+     | some (.fld jj) => firstAt names nm jj
+     | _ => false) &&
+    wellNested classes fuel ccls path k &&
+      (c.links.take j).all (fun l => linkAway classes fuel k (destPPath path (.self ci)) l.2)
+  | _ => false
+
+end Aoe.Props.CommitFrame
+
+namespace Aoe.Props.CommitFrame
+open Aoe Aoe.Codec Aoe.Lens Aoe.Commit Aoe.Props.Links
+
+/-- `commit_objs_count` with its side conditions packed into the decidable `countSafe` -/
+theorem commit_objs_count_of_safe (classes : List ClassSpec) (fuel cls : Nat) (hist : List Nat) (vals : List Val)
+    (s s' : Sections) (c : ClassSpec) (hc : classes[cls]? = some c)
+    (h : commitObj classes (fuel + 1) cls hist (.strct vals) s = .ok s')
+    (j : Nat) (hsafe : countSafe classes fuel c hist.length j = true)
+    (os : List Val) (hv : vals[j]? = some (.list os)) :
+    ∃ a path ccls defaults childNames guards names ci nm,
+      c.links[j]? = some (a, .objs path ccls defaults childNames guards
+        [{ dest := .self ci, expr := .len (.ref (.self nm)) }] names) ∧
+      ∀ p, resolve hist path = some p →
+        getAt (dropLastStep p ++ [Step.fld ci]) s'.root = some (.int os.length) := by
+  unfold countSafe at hsafe
+  split at hsafe
+  · rename_i a path ccls defaults childNames guards ci nm names hl
+    simp only [Bool.and_eq_true] at hsafe
+    obtain ⟨⟨hlf, hnest⟩, haway⟩ := hsafe
+    split at hlf
+    · rename_i jj hlast
+      refine ⟨a, path, ccls, defaults, childNames, guards, names, ci, nm, hl, ?_⟩
+      have hjl : j < c.links.length := by
+        rcases List.getElem?_eq_some_iff.mp hl with ⟨h', _⟩; exact h'
+      have hjv : j < vals.length := by
+        rcases List.getElem?_eq_some_iff.mp hv with ⟨h', _⟩; exact h'
+      have hjz : j < (c.links.zip vals).length := by simp; omega
+      have hzj : (c.links.zip vals)[j] = ((a, LinkKind.objs path ccls defaults childNames guards
+          [{ dest := .self ci, expr := .len (.ref (.self nm)) }] names), Val.list os) := by
+        rw [List.getElem_zip]
+        obtain ⟨_, e1⟩ := List.getElem?_eq_some_iff.mp hl
+        obtain ⟨_, e2⟩ := List.getElem?_eq_some_iff.mp hv
+        simp [e1, e2]
+      have hsplit : c.links.zip vals = (c.links.zip vals).take j ++
+          ((a, LinkKind.objs path ccls defaults childNames guards
+            [{ dest := .self ci, expr := .len (.ref (.self nm)) }] names), Val.list os) :: (c.links.zip vals).drop (j + 1) := by
+        rw [← hzj, List.getElem_cons_drop]; exact (List.take_append_drop j _).symm
+      intro p hp
+      refine commit_objs_count classes fuel cls hist vals s s' c hc h _ _ a path ccls defaults childNames guards names os
+        ci nm jj hsplit p hp hlast hlf hnest ?_
+      intro lv hlv
+      exact List.all_eq_true.mp haway lv.1 (mem_take_zip_fst j c.links vals lv hlv)
+    · cases hlf
+  · cases hsafe
+
+end Aoe.Props.CommitFrame
+
+namespace Aoe.Props.CommitFrame
+open Aoe Aoe.Codec Aoe.Lens Aoe.Commit Aoe.Props.Links
+open Aoe.Props.C05 (Diverge frame get_set)
+
+/-! ## what a plain link pushed is what the section holds after the commit - for every class (C03, C05) -/
+
+/-- **a value pushed through a plain link is what its retriever holds after the whole commit**, also in classes with
+object lists and refresh actions: the link's own refresh targets and everything pushed afterwards stay away from it -/
+theorem commit_plain_value (classes : List ClassSpec) (fuel cls : Nat) (hist : List Nat) (vals : List Val) (s s' : Sections)
+    (c : ClassSpec) (hc : classes[cls]? = some c)
+    (h : commitObj classes (fuel + 1) cls hist (.strct vals) s = .ok s')
+    (L1 L2 : List ((Nat × LinkKind) × Val)) (a : Nat) (path : List PStep) (acts : List RefreshAct) (names : List Nat) (v : Val)
+    (hsplit : c.links.zip vals = L1 ++ ((a, .plain path acts names), v) :: L2)
+    (p : List Step) (hp : resolve hist path = some p)
+    (hown : acts.all (fun x => PDiverge (destPPath path x.dest) path) = true)
+    (haway : ∀ lv ∈ L1, linkAway classes fuel hist.length path lv.1.2 = true) :
+    getAt p s'.root = some v := by
+  simp only [commitObj, hc, hsplit] at h
+  rw [List.reverse_append, List.reverse_cons, List.append_assoc, List.foldlM_append] at h
+  simp only [bind, Except.bind] at h
+  cases hA : List.foldlM (pushLink (commitObj classes fuel) hist) s L2.reverse with
+  | error e => rw [hA] at h; cases h
+  | ok sA =>
+    rw [hA] at h
+    simp only [List.singleton_append, List.foldlM, bind, Except.bind] at h
+    cases hB : pushLink (commitObj classes fuel) hist sA ((a, .plain path acts names), v) with
+    | error e => rw [hB] at h; cases h
+    | ok sB =>
+      rw [hB] at h
+      let Q : Val → Prop := fun t => getAt p t = some v
+      have h1 : Q sB.root := by
+        simp only [pushLink, bind, Except.bind, hp, pure, Except.pure] at hB
+        cases hw : (setAt p sA.root v).bind sA.withRoot with
+        | none => simp [hw] at hB
+        | some s1 =>
+          simp only [hw] at hB
+          have hq1 : Q s1.root := by
+            cases hs : setAt p sA.root v with
+            | none => simp [hs, Option.bind] at hw
+            | some r =>
+              simp only [hs, Option.bind] at hw
+              show getAt p s1.root = some v
+              rw [(withRoot_some sA s1 r hw).1]
+              exact get_set p sA.root v r hs
+          refine applyActs_inv Q acts (dropLastStep p) names ?_ s1 sB hB hq1
+          intro act hact
+          exact pres_of_diverge p _ _ (resolve_diverge hist _ path _ p (resolve_dest hist path p act.dest hp) hp
+                  (List.all_eq_true.mp hown act hact))
+      refine foldlM_inv Q _ L1.reverse ?_ sB s' h h1
+      intro lv hlv t t' ht hq
+      refine pushLink_inv Q (commitObj classes fuel) (foot classes fuel) ?_ hist t t' lv ht ?_ hq
+      · intro cc hh o u u' hu hpres hQu
+        exact commitObj_inv Q classes fuel cc hh o u u' hu hpres hQu
+      · exact linkAway_pres classes fuel hist path p hp Q (fun w hd => pres_of_diverge p w _ hd) lv
+          (haway lv (by simpa using hlv))
+
+/-- the decidable side conditions of `commit_plain_value` for link number `j` of class `c` at nesting depth `k` -/
+def plainSafe (classes : List ClassSpec) (fuel : Nat) (c : ClassSpec) (k j : Nat) : Bool :=
+  match c.links[j]? with
+  | some (_, .plain path acts _) =>
+    acts.all (fun x => PDiverge (destPPath path x.dest) path) &&
+      (c.links.take j).all (fun l => linkAway classes fuel k path l.2)
+  | _ => false
+
+/-- every plain link of the class is safe -/
+def allPlainSafe (classes : List ClassSpec) (fuel : Nat) (c : ClassSpec) (k : Nat) : Bool :=
+  (List.range c.links.length).all (fun j =>
+    match c.links[j]? with
+    | some (_, .plain _ _ _) => plainSafe classes fuel c k j
+    | _ => true)
+
+theorem commit_plain_value_of_safe (classes : List ClassSpec) (fuel cls : Nat) (hist : List Nat) (vals : List Val)
+    (s s' : Sections) (c : ClassSpec) (hc : classes[cls]? = some c)
+    (h : commitObj classes (fuel + 1) cls hist (.strct vals) s = .ok s')
+    (j : Nat) (hsafe : plainSafe classes fuel c hist.length j = true) (v : Val) (hv : vals[j]? = some v) :
+    ∃ a path acts names, c.links[j]? = some (a, .plain path acts names) ∧
+      ∀ p, resolve hist path = some p → getAt p s'.root = some v := by
+  unfold plainSafe at hsafe
+  split at hsafe
+  · rename_i a path acts names hl
+    simp only [Bool.and_eq_true] at hsafe
+    obtain ⟨hown, haway⟩ := hsafe
+    refine ⟨a, path, acts, names, hl, ?_⟩
+    have hjl : j < c.links.length := by
+      rcases List.getElem?_eq_some_iff.mp hl with ⟨h', _⟩; exact h'
+    have hjv : j < vals.length := by
+      rcases List.getElem?_eq_some_iff.mp hv with ⟨h', _⟩; exact h'
+    have hjz : j < (c.links.zip vals).length := by simp; omega
+    have hzj : (c.links.zip vals)[j] = ((a, LinkKind.plain path acts names), v) := by
+      rw [List.getElem_zip]
+      obtain ⟨_, e1⟩ := List.getElem?_eq_some_iff.mp hl
+      obtain ⟨_, e2⟩ := List.getElem?_eq_some_iff.mp hv
+      simp [e1, e2]
+    have hsplit : c.links.zip vals = (c.links.zip vals).take j ++
+        ((a, LinkKind.plain path acts names), v) :: (c.links.zip vals).drop (j + 1) := by
+      rw [← hzj, List.getElem_cons_drop]; exact (List.take_append_drop j _).symm
+    intro p hp
+    refine commit_plain_value classes fuel cls hist vals s s' c hc h _ _ a path acts names v hsplit p hp hown ?_
+    intro lv hlv
+    exact List.all_eq_true.mp haway lv.1 (mem_take_zip_fst j c.links vals lv hlv)
+  · cases hsafe
+
+end Aoe.Props.CommitFrame
+
+namespace Aoe.Props.CommitFrame
+open Aoe Aoe.Codec Aoe.Lens Aoe.Commit Aoe.Props.Links
+
+/-- **every plain link of a class reads back what was pushed** (class-level form of `commit_plain_value`) -/
+theorem commit_plain_values (classes : List ClassSpec) (fuel cls : Nat) (hist : List Nat) (vals : List Val)
+    (s s' : Sections) (c : ClassSpec) (hc : classes[cls]? = some c)
+    (h : commitObj classes (fuel + 1) cls hist (.strct vals) s = .ok s')
+    (hall : allPlainSafe classes fuel c hist.length = true)
+    (j a : Nat) (path : List PStep) (acts : List RefreshAct) (names : List Nat) (v : Val)
+    (hl : c.links[j]? = some (a, .plain path acts names)) (hv : vals[j]? = some v)
+    (p : List Step) (hp : resolve hist path = some p) : getAt p s'.root = some v := by
+  have hj : j < c.links.length := by
+    rcases List.getElem?_eq_some_iff.mp hl with ⟨h', _⟩; exact h'
+  have hsafe : plainSafe classes fuel c hist.length j = true := by
+    have := List.all_eq_true.mp hall j (List.mem_range.mpr hj)
+    simpa [hl] using this
+  obtain ⟨a', path', acts', names', hl', hval⟩ :=
+    commit_plain_value_of_safe classes fuel cls hist vals s s' c hc h j hsafe v hv
+  rw [hl] at hl'
+  simp only [Option.some.injEq, Prod.mk.injEq, LinkKind.plain.injEq] at hl'
+  obtain ⟨_, rfl, _, _⟩ := hl'
+  exact hval p hp
+
+end Aoe.Props.CommitFrame
